@@ -2,7 +2,8 @@
    (harness h_nat) on
      (1) an independent big-integer oracle written with Zarith ([onat]: the
          mathematical value as odd mantissa * 2^exponent, or NaN), and
-     (2) the extracted Gallina model of Natural / Saturating (module Model).
+     (2) the extracted Gallina model of Natural / Saturating / F64 (module Model;
+         F64 and the specification of Natural -> f64 are Flocq's binary64).
    kind=prop: the implementation's result is not the exact mathematical value
    (or panicked / crashed); kind=corr: implementation and oracle agree but the
    model computes something else. *)
@@ -90,6 +91,12 @@ let o_f64 a =
         let ef = Z.add bw (Z.of_int 1022) in
         let bits = Z.add (Z.shift_left ef 52) (Z.sub q (Z.shift_left Z.one 52)) in
         Z.format "%016x" bits
+
+(* the specification of the conversion: extracted Flocq [binary_normalize mode_NE m e] *)
+let flocq_f64 a =
+  match a with
+  | ONaN -> "7ff8000000000000"
+  | OVal (m, e) -> Z.format "%016x" (z_of_mz (Model.bits_of_b64 (Model.f64_norm_int (mz_of_z m) (mz_of_z e))))
 
 let limbs_hex (m : Z.t) : string =
   let rec go v acc =
@@ -202,7 +209,15 @@ let m_digits_string upper (o : Model.n list option) : string =
 let m_fmt (x : Model.natural) : string option =
   if (not (Model.is_nan x)) && Z.gt (z_of_n (Model.expo x)) big then None
   else
-    let d = match Model.fmt_dec x with None -> "?" | Some v -> string_of_n v in
+    (* Display: the extracted decimal digits [fmt_dec_digits] (theorem C12_nat_fmt_dec_digits); for very
+       long numbers (the model's division is quadratic) the number [fmt_dec] printed by Zarith *)
+    let d =
+      match Model.fmt_dec x with
+      | None -> "?"
+      | Some v ->
+        if Z.numbits (z_of_n v) <= 1536 then (stat "dec_digits_model" 1; m_digits_string false (Model.fmt_dec_digits x))
+        else string_of_n v
+    in
     Some
       (Printf.sprintf "d=%s b=%s o=%s x=%s X=%s" d
          (m_digits_string false (Model.fmt_bin x))
@@ -338,7 +353,14 @@ let run_nat (c : case) =
           let mo = if bits = 64 then Model.try_into_u64 mregs.(r 1) else Model.try_into_u128 mregs.(r 1) in
           check ops res want (match mo with Some v -> "ok " ^ string_of_n v | None -> "err")
         | "f64" ->
-          check ops res (o_f64 oregs.(r 1)) (Z.format "%016x" (z_of_n (Model.to_f64_bits mregs.(r 1))))
+          (* expected: Flocq's correctly rounded conversion of the oracle's value m * 2^e (extracted
+             [f64_norm_int] = binary_normalize, theorem C12_nat_to_f64); the hand-written integer rounding
+             [o_f64] must agree with it *)
+          let spec = flocq_f64 oregs.(r 1) in
+          if spec <> o_f64 oregs.(r 1) then
+            raise (Bad ("corr", Printf.sprintf "op=[%s]: Flocq conversion %s differs from the integer oracle %s" ops spec (o_f64 oregs.(r 1))));
+          stat "f64_conv_flocq" 1;
+          check ops res spec (Z.format "%016x" (z_of_n (Model.to_f64_bits mregs.(r 1))))
         | "fmt" ->
           let want = match o_fmt oregs.(r 1) with Some s -> s | None -> "skip" in
           let ms = match m_fmt mregs.(r 1) with Some s -> s | None -> "skip" in
@@ -417,6 +439,8 @@ let int64_of_hex (h : string) : int64 =
 
 let run_f64 (c : case) =
   let regs = Array.make nreg 0.0 in
+  (* the extracted model (coq/Num/F64Count.v, Flocq binary64) on bit patterns *)
+  let mregs = Array.make nreg (mz_of_z Z.zero) in
   List.iteri
     (fun i l ->
       try
@@ -439,10 +463,25 @@ let run_f64 (c : case) =
           | o -> failwith ("unknown op " ^ o)
         in
         regs.(d) <- v;
+        let mv =
+          match t.(0) with
+          | "from" -> Model.f64c_bits_from_u32 (n_of_z (Z.of_string t.(2)))
+          | "raw" -> mz_of_z (Z.of_string_base 16 t.(2))
+          | "add" -> Model.f64c_bits_add mregs.(r 2) mregs.(r 3)
+          | "sub" -> Model.f64c_bits_sub mregs.(r 2) mregs.(r 3)
+          | "shl" -> Model.f64c_bits_shl mregs.(r 2) (n_of_z (Z.of_string t.(3)))
+          | "shr" -> Model.f64c_bits_shr mregs.(r 2) (n_of_z (Z.of_string t.(3)))
+          | o -> failwith ("unknown op " ^ o)
+        in
+        mregs.(d) <- mv;
         let bits x = Printf.sprintf "%016Lx" (Int64.bits_of_float x) in
         (* NaN payload/sign is not determined by IEEE 754 *)
-        let want = if Float.is_nan v then (if String.length res = 16 && Float.is_nan (Int64.float_of_bits (int64_of_hex res)) then res else "nan") else bits v in
-        check ops res want want
+        let impl_nan = String.length res = 16 && Float.is_nan (Int64.float_of_bits (int64_of_hex res)) in
+        let want = if Float.is_nan v then (if impl_nan then res else "nan") else bits v in
+        let ms = if Model.f64c_bits_is_nan mv then (if impl_nan then res else "nan") else Z.format "%016x" (z_of_mz mv) in
+        if Model.f64c_bits_is_nan mv then stat "f64_nan_results" 1
+        else if ms = "7ff0000000000000" then stat "f64_inf_results" 1;
+        check ops res want ms
       with Bad (kind, msg) -> raise (Bad (kind, Printf.sprintf "%d %s" i msg)))
     c.lines
 
